@@ -66,6 +66,8 @@ def _run_group(cmd, cwd, log_path, deadline_s, env=None):
     t0 = time.time()
     e = dict(os.environ)
     e['CARGO_NET_OFFLINE'] = 'true'
+    # scratch copies are thrown away: incremental state would only pile up
+    e['CARGO_INCREMENTAL'] = '0'
     e.pop('RUSTUP_TOOLCHAIN', None)
     if env:
         e.update(env)
